@@ -166,3 +166,18 @@ def check(facts, rep, tier, cfg):
                     rep.ok("C05.R4", "%s/closed-check" % b.path, where, "credit take dominated by finish_sent == false")
                 else:
                     rep.bad("C05.R4", "%s/closed-check" % b.path, where, "credit can be taken (and a Push sent) without checking the closed flag: writes after shutdown/abort are transmitted instead of failing with BrokenPipe")
+    # ---- R3 half-close (reaction-table cell)
+    rep.rule("C05.R3", "Finish x Established only drops the inbound sender: no flow-table removal, no closed flag (half-close); EOF sources are the Finish / Reset / teardown cells")
+    import rules_c10
+    sub = type(rep)(rep.prop, rep.tier, rep.config)
+    rules_c10.check(facts, sub, tier, cfg)
+    rep.paths += sub.paths
+    cells = ("cell/Finish/Established", "cell/Reset/Established", "cell/Push/overrun", "cell/Push/delivered-or-closed")
+    for i in sub.instances:
+        if i["key"] in cells:
+            rep.ok("C05.R3", i["key"], i["where"], i["detail"])
+    for v in sub.violations:
+        k = v["key"].split("/", 1)[1]
+        if k in cells or (k.startswith("unmatched/") and ("op:Finish" in k or "op:Push" in k)):
+            rep.bad("C05.R3", k, v["where"], v["msg"])
+
